@@ -473,3 +473,39 @@ Proof.
       exists [[109]; [97]; [98; 99]]%N. split; [reflexivity|]. split; [labels_ok | zcmp]. }
   split; [constructor|]. split; [constructor|]. cbn. repeat split; lia.
 Qed.
+
+(* ---- the legacy query builders, for a name in any valid presentation text ---- *)
+Theorem query_builders_gen name cls type id rd udp bs :
+  owner_wf name -> 0 <= type < 65536 ->
+  create_query wfixed name cls type id rd udp = Ok bs ->
+  exists d d',
+    record_create_query name cls type (Z.land id 65535) (if rd =? 0 then 0 else ARES_FLAG_RD) (udp mod 2 ^ 64) = Ok d /\
+    dns_parse bs 0 = Ok d' /\ norm_parsed d' = norm_parsed (canon_rec d) /\ (canon name = name -> dns_write d' = Ok bs).
+Proof.
+  intros Hown Hty H. unfold create_query in H.
+  destruct (record_create_query name cls type (Z.land id 65535) (if rd =? 0 then 0 else ARES_FLAG_RD) (udp mod 2 ^ 64))
+    as [d| |] eqn:Er; cbn [bind] in H; [|discriminate H|discriminate H].
+  destruct (query_record_shape _ _ _ _ _ _ _ Er) as (Hd & Hcv & _ & Hu).
+  set (uv := udp mod 2 ^ 64) in *.
+  assert (Hwf : msg_wf d).
+  { rewrite Hd. unfold msg_wf, query_record. cbn [d_id d_flags d_opcode d_rcode d_qd d_an d_ns d_ar].
+    split; [apply land_u16_range|]. split; [destruct (rd =? 0); split; zcmp|]. split; [split; zcmp|]. split; [reflexivity|].
+    split; [reflexivity|]. split; [intros G; vm_compute in G; discriminate G|].
+    split; [eexists; split; [reflexivity|]; split; [exact Hown | split; [exact Hty | exact Hcv]]|].
+    split; [constructor|]. split; [constructor|].
+    destruct (uv >? 0) eqn:Eu.
+    - split.
+      + repeat constructor. eapply rr_ok_opt; [split; [exact ex_owner_root | split; split; zcmp] | | reflexivity | reflexivity | reflexivity].
+        unfold opt_wf, Write_query2.opt_rr. cbn [rr_type get_field rr_fields assoc_get].
+        repeat (first [rewrite Z.eqb_refl | change (?a =? ?b) with false]).
+        pose proof (land_u16_range uv) as Hr.
+        split; [reflexivity|]. split; [reflexivity|]. split; [exact Hr|]. split; [reflexivity|]. split; [split; zcmp|].
+        split; [reflexivity|]. split; [split; zcmp|]. split; [reflexivity | constructor].
+      + cbn. repeat split; lia.
+    - split; [constructor|]. cbn. repeat split; lia. }
+  destruct (roundtrip_fixed d bs Hwf H) as (_ & d' & Hp & Hn & _ & Hrw).
+  exists d, d'. split; [reflexivity|]. split; [exact Hp|]. split; [exact Hn|].
+  intros Hc. apply Hrw. rewrite Hd. unfold canon_rec, query_record.
+  cbn [d_id d_flags d_opcode d_rcode d_raw_rcode d_qd d_an d_ns d_ar map]. unfold canon_q. cbn [q_name q_type q_class].
+  rewrite Hc. destruct (uv >? 0); reflexivity.
+Qed.
